@@ -156,7 +156,7 @@ def ref_pc(c):
     l0, l1, l2 = c['l0'], c['l1'], c['l2']
     V = [c['V0']]
     B = [c['B0']]
-    out = {'Y': [None], 'T': [None], 'YD': [None], 'C': [None], 'H': V, 'B': B, 'M': [None]}
+    out = {'Y': [None], 'T': [None], 'YD': [None], 'C': [None], 'H': V, 'B': B, 'M': [None], 'GD': V}
     for k in range(1, c['T'] + 1):
         G = c['G'][k]
         rB = c['r'][k - 1] * B[k - 1]
@@ -224,6 +224,12 @@ def run_builder(c, tol=1e-12):
     if c['which'] == 'PC':
         got['B'] = ts['HH__DEM_DEP']
         got['M'] = ts['HH__DEM_MON']
+        # the government budget constraint: with the central bank's profits remitted, the Treasury's debt is the
+        # private sector's wealth in every period (it is at k=0 by construction of the initial stocks)
+        # Only for a start without bills: an initial bill holding stated on the household alone has no counterpart
+        # on the issuer's books at k=0 (the cases state no initial condition for the Treasury's supply of bills).
+        if not c.get('B0'):
+            got['GD'] = [-x for x in ts['TRE__F']]
     return {k: list(v) for k, v in got.items()}
 
 
@@ -267,6 +273,8 @@ def execute(case):
     q = case['alpha1'] * (1 - case['theta'])
     worst = None
     for key in sorted(ref):
+        if key not in got:
+            continue
         for k in range(1, T + 1):
             w = ref[key][k]
             if w is None:
